@@ -1963,6 +1963,115 @@ pub fn check_c15(ix: &Ix<'_>, v: &mut Vec<Violation>) {
     }
 }
 
+
+// ------------------------------------------------------------------------------------------
+// C17: MQTT 5 topic aliases always resolve to the right topic
+
+fn c17_route(topic: &str, router: bool, client: bool) -> &'static str {
+    if !router {
+        return if client { "control" } else { "default" };
+    }
+    if topic == "a" {
+        "res:a"
+    } else if topic.starts_with("b/") && topic.matches('/').count() == 1 {
+        "res:b"
+    } else if topic.starts_with("t/") && topic.matches('/').count() == 1 {
+        "res:t"
+    } else if client {
+        "control"
+    } else {
+        "default"
+    }
+}
+
+pub fn check_c17(ix: &Ix<'_>, v: &mut Vec<Violation>) {
+    let role = ix.role();
+    let out = ix.out;
+    if out.budget_hit || out.panic.is_some() || out.plan.ending == Ending::Stop || ix.settle_seq.is_none() {
+        return;
+    }
+    let max_alias: u16 = out.plan.tags.iter().find_map(|t| t.strip_prefix("max-alias:").and_then(|x| x.parse().ok())).unwrap_or(0);
+    let router = out.plan.cfg.use_router;
+    let client = !out.plan.role.is_server();
+    for conn in 0..out.peers.len() {
+        // reference model: alias table of this connection only
+        let mut table: BTreeMap<u16, String> = BTreeMap::new();
+        let mut gates = ix.pub_gates(conn);
+        let stop = ix.stops.iter().find(|s| s.1 == conn);
+        let ended = ix.conn_ended(conn);
+        for s in ix.sent.iter().filter(|s| s.conn == conn && !s.corrupt) {
+            let Some(Pkt::Publish(p)) = &s.pkt else { continue };
+            if s.delivered.is_none() {
+                break;
+            }
+            let alias = crate::refcodec::prop_u16(&p.props, 35);
+            let expected: Result<String, &'static str> = match (p.topic.is_empty(), alias) {
+                (_, Some(a)) if a == 0 || a > max_alias => Err("alias-beyond-maximum"),
+                (false, Some(a)) => {
+                    table.insert(a, p.topic.clone());
+                    Ok(p.topic.clone())
+                }
+                (true, Some(a)) => table.get(&a).cloned().ok_or("alias-never-bound"),
+                (false, None) => Ok(p.topic.clone()),
+                (true, None) => Err("empty-topic-without-alias"),
+            };
+            match expected {
+                Ok(topic) => {
+                    let Some((g, seen)) = gates.next() else {
+                        if !ended {
+                            viol(v, "C17", format!("C17/not-delivered/{role}"), format!("conn {conn}: PUBLISH (topic {:?}, alias {alias:?}) resolves to {topic:?} but no handler was invoked", p.topic), ix.last_seq);
+                        }
+                        break;
+                    };
+                    if seen.topic != topic {
+                        viol(
+                            v,
+                            "C17",
+                            format!("C17/wrong-topic/{role}/{}", if router { "router" } else { "plain" }),
+                            format!("conn {conn}: PUBLISH (topic {:?}, alias {alias:?}) must resolve to {topic:?}, the handler saw {:?}", p.topic, seen.topic),
+                            g.enter,
+                        );
+                        return;
+                    }
+                    let want_route = c17_route(&topic, router, client);
+                    if seen.route != want_route {
+                        viol(
+                            v,
+                            "C17",
+                            format!("C17/wrong-route/{role}/{}-instead-of-{}", seen.route, want_route),
+                            format!("conn {conn}: PUBLISH resolved to {topic:?} (sent topic {:?}, alias {alias:?}) was handled by {:?}, the resolved topic routes to {want_route:?}", p.topic, seen.route),
+                            g.enter,
+                        );
+                        return;
+                    }
+                    if let Some((total, digest, None)) = &g.payload_end
+                        && (*total != p.payload.len() || *digest != digest_bytes(&p.payload))
+                    {
+                        viol(v, "C17", format!("C17/wrong-publish-delivered/{role}"), format!("conn {conn}: handler of {topic:?} read a payload that is not the one of this PUBLISH (order of deliveries broken)"), g.enter);
+                        return;
+                    }
+                }
+                Err(why) => {
+                    // must not reach a handler; the connection ends with a protocol error
+                    if let Some((g, seen)) = gates.next() {
+                        viol(v, "C17", format!("C17/invalid-alias-delivered/{role}/{why}"), format!("conn {conn}: PUBLISH with {why} (alias {alias:?}) reached a handler as {:?}", seen.topic), g.enter);
+                        return;
+                    }
+                    match stop {
+                        Some((_, _, StopClass::Protocol(_))) => {}
+                        Some((sq, _, cls)) => viol(v, "C17", format!("C17/invalid-alias-wrong-stop/{role}/{why}"), format!("conn {conn}: {why}: connection ended with {cls:?}, not a protocol error"), *sq),
+                        // (client role with the router: the library's own control service is in use and the
+                        // Stop notification is not visible; the DISCONNECT on the wire shows the protocol error)
+                        None if ended && ix.eps.iter().any(|e| e.conn == conn && matches!(&e.pkt, Pkt::Disconnect(d) if d.code >= 0x80)) => {}
+                        None => viol(v, "C17", format!("C17/invalid-alias-accepted/{role}/{why}"), format!("conn {conn}: PUBLISH with {why} (alias {alias:?}) neither reached a handler nor ended the connection"), ix.last_seq),
+                    }
+                    break;
+                }
+            }
+        }
+    }
+}
+
 // ------------------------------------------------------------------------------------------
 // C16: no well-formed sequence panics or hangs an endpoint
 
@@ -2034,6 +2143,9 @@ pub fn check_all(out: &RunOut) -> Vec<Violation> {
         "C07" => {
             check_c07(&ix, &mut v);
             check_c15(&ix, &mut v);
+        }
+        "C17" => {
+            check_c17(&ix, &mut v);
         }
         "C15" => {
             check_c15(&ix, &mut v);
